@@ -66,6 +66,12 @@ fn main() {
             };
             batch::batch(e, &a)
         }
+        "sites" => {
+            for (site, kind) in gluon_sim::sitelint::classify() {
+                println!("{:40} {:?}", site, kind);
+            }
+            0
+        }
         "selfcheck" => {
             let prop = arg(&args, "--prop").expect("--prop");
             let e = props::engine(&prop).expect("unknown property");
